@@ -9,6 +9,21 @@ CLAIMED = {
         note="Trusted: Lean kernel (+propext, Quot.sound), the hand-written model Model/C20.lean (validated, not verified, against fgutils.utils), networkx node iteration order modelled as a list.",
         technique="Lean 4 proof (induction over the node list, loop invariant) + model/implementation correspondence check",
         design_ref="6/C20"),
+    "C01": dict(
+        text="Lean 4 theorem C01.parse_faithful: for every syntax tree c that is a valid writing (decidable WF: lexes back, label texts, bond symbols on ring marks only at closing occurrences, rings closed, no pair bonded twice unless multigraph) and every offset / init_aam / use_multigraph, the model of tokenize+Parser applied to the rendered text returns exactly the graph the text denotes (compositional denotation with declarative ring pairing) as a networkx object (node order, adjacency order, keys); with lex_render, ring_table_pairs, chain_run/items_run, run_sim, parse_nodes, parse_edges, denote_hasEdge, denote_bond, dot_never_bonds, all_declared_orders_accepted, quadruple_declared, offset_shift and six table obligations closed by decide on the token/bond tables regenerated from the source. Three-way check on every run: real Parser vs model parser vs denotation (spec on the implementation output).",
+        note="Trusted: Lean kernel (+propext, Classical.choice, Quot.sound); Python `re` ordered alternation modelled by `lex` over the generated alternation lists (ASCII input; an empty alternative stands for an unescaped `$`); networkx add_node/add_edge as in Model/Graph.lean; gen_tables.py. Malformed strings (unbalanced parentheses, token soup) are out of domain (error kinds compared and logged only).",
+        technique="Lean 4 proof (mutual structural induction over the syntax tree with a cursor-machine invariant; simulation of the graph-reading parser; decide on regenerated tables) + model/implementation correspondence check",
+        design_ref="6/C01"),
+    "C02": dict(
+        text="Lean 4 theorems C02.parse_eq_smiles (Plain c -> WF c -> parse (renderStr c) = smilesDenote c), denote_eq_smilesDenote, tbl_smiles_orders (decide on the regenerated bond map), opening_bond_differs (witness for the excluded syntax); RDKit is not modelled: its reading of the shared sub-language is written down as smilesDenote and compared with mol_smiles_to_graph on every case (three-way: parser / RDKit / smilesDenote on seeded random writings of generated molecules).",
+        note="Trusted: Lean kernel (+propext, Classical.choice, Quot.sound); the assumed contract smilesDenote = RDKit up to c->C on in-contract strings (no aromaticity re-perception), checked on every case - a break of it exits 2, not a violation; C01's trusted base. Known finding K1 ('Sn' lexes as tin) is classified per case by a tokenisation oracle.",
+        technique="Lean 4 proof (corollary of the C01 parser theorem by structural induction on the Plain sub-grammar) + three-way correspondence check against RDKit",
+        design_ref="6/C02"),
+    "C11": dict(
+        text="Lean 4 theorems C11.rc_exact, unreachable_exact (reported <-> node and no start node within distance r; any ids, any start list, any r), start_nodes_never_unreachable, prune_exact (kept nodes = within r of the reaction centre, bonds among them unchanged, one fresh H with a (1,1) bond per cut bond on ids above every old id) with the reusable Reach library (pow_pos_iff_walk, powsum_pos_iff_walk, within_iff_distLe, walk_le_iff_dist) and checker soundness; model of get_rc / get_unreachable_nodes (matrix power sums over List (List Nat)) / prune_its_to_rc compared with the implementation on every run; independent BFS spec applied to every implementation output.",
+        note="Trusted: Lean kernel (+propext, Classical.choice, Quot.sound), Model/C11.lean + Model/Graph.lean (validated), nx.adjacency_matrix returning edge multiplicities. Not modelled: int64 wrap-around of walk counts (dense high-radius probe reported only). Hypotheses wellFormed/simple are decidable and evaluated by the driver on every case.",
+        technique="Lean 4 proof (walk-counting induction for adjacency-power sums, fold invariants for pruning) + model/implementation correspondence check",
+        design_ref="6/C11"),
     "C09": dict(
         text="Lean 4 theorems C09.its_exact (Dom G -> Dom H -> abstract view of get_its = itsSpec, a specification on atom-map numbers only), getIts_closed, renumbering_invariant (any injective id renaming / reordering / edge orientation of either side), no_ghost_nodes, one_sided_atoms_contribute_nothing, specCheck_iff/sound, and decide-refutations of the two unrepaired variants; model of get_its (eta dicts as association lists, both node and both edge loops with their guards) compared with the implementation (also through ITS.from_smiles) on every run; proved-sound executable spec applied to every implementation output.",
         note="Trusted: Lean kernel (+propext, Classical.choice, Quot.sound), Model/C09.lean as model of the Python (networkx/dict semantics as ordered lists; validated by differential testing), RDKit parsing inside ITS.from_smiles taken as given. Domain Dom: distinct ids, present map numbers >= 1 and pairwise distinct, simple graph, bond orders != 0 (map number 0 / negatives / duplicates are generated but out of domain).",
